@@ -873,6 +873,30 @@ pub fn run_seq(base: Instant, v: &Variant, seq: &[Op], verbose: bool) -> Result<
                 }
             }
         }
+        // ... and once every stream is accepted and every sending half that still exists is reset and
+        // the resets are acknowledged, nothing is counted any more
+        if viol.is_empty() {
+            for node in [a, b] {
+                let (c, ch) = conn_of(&mut p, node);
+                while c.streams().accept(dir).is_some() {}
+                if node == a || v.bidi {
+                    let _ = c.send_stream(id).reset(VarInt::from_u32(77));
+                }
+                p.w.settle_conn(node, ch);
+            }
+            for _ in 0..3 {
+                flush(&mut p, a);
+                flush(&mut p, b);
+            }
+            for node in [a, b] {
+                let (c, _) = conn_of(&mut p, node);
+                let n = c.verif_probe().streams.send_streams;
+                // (streams of the prelude are not touched here: they may account for one)
+                if n > (v.prelude != 0) as usize {
+                    viol.push(("send-streams-count".into(), format!("after {seq:?}, accepting everything, resetting every sending half of the stream and a settling tail, node{node} still counts {n} streams that may have unacknowledged data")));
+                }
+            }
+        }
         // end-of-run event-count invariants
         if m.fwd.s.finished_event > 1 || m.fwd.s.stopped_event > 1 {
             viol.push(("model-bug".into(), "model emitted an event twice".into()));
